@@ -76,7 +76,7 @@ def rule_printer_injective(chk, rid):
                 clash = (t, seen[t], d)
                 break
             seen[t] = d
-        n += len(seen)
+        n += len(insts)
         chk.ob(rid, f"{PARSER}.{cname}.encode", clash is None, f"{len(seen)} distinct instances print {len(seen)} distinct texts" if clash is None else
                f"two different {cname} instances print the same text {clash[0]!r}: {clash[1][:80]} vs {clash[2][:80]}", px.method(cname, "encode"), m, key=f"injective:{cname}")
     chk.floor(rid, n, 30, "instances compared")
@@ -481,7 +481,7 @@ def rule_remove_matches_store(chk, rid):
         for c in calls_in(fn, tail="to_path"):
             d = dict(tp_def)
             for i, a in enumerate(c.args[1:]):
-                d[["prefix", "extension"][i]] = U(a)
+                d[params(tp)[2:][i]] = U(a)
             d.update({k.arg: U(k.value) for k in c.keywords})
             if d.get("prefix") != tp_def.get("prefix"):
                 out.add(tuple(sorted(d.items())))
@@ -655,3 +655,260 @@ def rule_get_json_force(chk, rid):
             chk.ob(rid, f"liquer.server.blueprint.{fname}", ok, f"`{U(c)}`" + ("" if ok else
                    ": without force=True a JSON argument document sent without the JSON content type is silently ignored"), c, m, key="force")
     chk.floor(rid, n, 4, "get_json calls")
+
+
+# =========================================================================== rules added after the third seeding round
+def rule_to_list_raw(chk, rid):
+    repo = chk.repo
+    chk.rule(rid, "the recorded form of an action (ActionRequest.to_list -> metadata['commands']) carries the *decoded* text of string "
+                  "parameters (x.string) and the encoded text only for link parameters")
+    m = repo.module(PARSER)
+    fn = repo.func(PARSER, "ActionRequest.to_list")
+    cfg = CFG(fn)
+    apps = [c for c in calls_in(fn, tail="append")]
+    n = 0
+    for c in apps:
+        lits = dominating_literals(cfg, cfg.node_of(c))
+        for _, txt, pol, _ in lits:
+            if pol and txt.startswith("isinstance(") and "StringActionParameter" in txt:
+                n += 1
+                only_string = "LinkActionParameter" not in txt
+                ok = only_string and c.args and U(c.args[0]).endswith(".string")
+                chk.ob(rid, f"{PARSER}.ActionRequest.to_list", ok, f"string parameters are recorded as `{U(c.args[0])}`" + ("" if ok else
+                       ": escaped query text is recorded instead of the argument the command received"), c, m, key="string-raw")
+    chk.floor(rid, n, 1, "string-parameter branch in to_list")
+
+
+def rule_store_metadata_fresh(chk, rid):
+    repo = chk.repo
+    chk.rule(rid, "stores hand out and keep *copies* of metadata: finalize_metadata returns a fresh deep copy (Metadata(...).as_dict() / "
+                  "deepcopy), so neither a caller nor another layer can mutate a store's record through a returned dictionary")
+    mod = repo.module(STORE)
+    for cn in ("Store", "FileStore", "RoutingStore"):
+        ci = repo.cls(STORE, cn)
+        f = ci.methods.get("finalize_metadata")
+        if f is None:
+            continue
+        for r in returns_of(f):
+            v = r.value
+            fresh = F.is_deep_copy_expr(v) or (isinstance(v, ast.Name) and any(
+                isinstance(s, ast.Assign) and U(s.targets[0]) == v.id and isinstance(s.value, ast.Call) and call_name(s.value) == "super().finalize_metadata"
+                for s in body_walk(f)))
+            chk.ob(rid, f"{ci.qual}.finalize_metadata", fresh, f"returns `{U(v)[:50]}`" + ("" if fresh else
+                   ": the store's own dictionary (or the caller's) is shared - a later write through one holder changes the other's record"), r, mod, key="fresh-copy")
+    md = repo.func("liquer.metadata", "Metadata.as_dict")
+    ok = all(isinstance(r.value, ast.Call) and call_tail(r.value) == "deepcopy" for r in returns_of(md)) and bool(returns_of(md))
+    chk.ob(rid, "liquer.metadata.Metadata.as_dict", ok, "Metadata.as_dict is a deepcopy", md, repo.module("liquer.metadata"), key="as_dict-deep")
+
+
+def rule_state_clone_deep(chk, rid):
+    repo = chk.repo
+    chk.rule(rid, "State.clone / next_state deep-copy the metadata: as_dict returns deepcopy(self.metadata) and from_dict deep-copies "
+                  "what it is given (either one alone would do; both shallow makes clones share vars / attributes / log)")
+    m = repo.module(STATE)
+    ad = repo.func(STATE, "State.as_dict")
+    adcfg = CFG(ad)
+    def rv(cfg, r):
+        return resolve_local(cfg, r.value, cfg.node_of(r)) if isinstance(r.value, ast.Name) else r.value
+    a_deep = all(isinstance(rv(adcfg, r), ast.Call) and call_tail(rv(adcfg, r)) == "deepcopy" for r in returns_of(ad)) and bool(returns_of(ad))
+    fd = repo.func(STATE, "State.from_dict")
+    ws = [n for n in body_walk(fd) if isinstance(n, ast.Assign) and any(U(t) == "self.metadata" for t in n.targets)]
+    f_deep = bool(ws) and all(isinstance(n.value, ast.Call) and call_tail(n.value) == "deepcopy" for n in ws)
+    chk.ob(rid, f"{STATE}.State.as_dict", a_deep, "as_dict returns a deep copy" if a_deep else "as_dict returns a shallow copy", ad, m, key="as_dict")
+    chk.ob(rid, f"{STATE}.State.from_dict", f_deep, "from_dict deep-copies" if f_deep else "from_dict keeps (a shallow copy of) the given dictionary", fd, m, key="from_dict")
+    cl = repo.func(STATE, "State.clone")
+    chk.ob(rid, f"{STATE}.State.clone", "from_dict(self.as_dict())" in U(cl) or "deepcopy(self.metadata)" in U(cl), "clone goes through as_dict/from_dict", cl, m, key="clone")
+
+
+def rule_initial_state_plain(chk, rid):
+    repo = chk.repo
+    chk.rule(rid, "the initial state is a plain State: no context attached (the error helpers of State mark the *state* only then) and "
+                  "not volatile (a volatile input would make evaluate_action hand the caller's object to the first command)")
+    m = repo.module(CTX)
+    fn = repo.func(CTX, "Context.create_initial_state")
+    for c in calls_in(fn):
+        if call_tail(c) == "State" and isinstance(c.func, ast.Name):
+            ok = not c.args and not c.keywords
+            chk.ob(rid, f"{CTX}.Context.create_initial_state", ok, f"`{U(c)}`" + ("" if ok else
+                   ": a state with a context delegates log_error/log_exception to the context and is never flagged itself"), c, m, key="plain-state")
+    sv = [c for c in calls_in(fn, tail="set_volatile")]
+    chk.ob(rid, f"{CTX}.Context.create_initial_state", not sv, "the initial state is not marked volatile" if not sv else
+           "the initial state is marked volatile: the first command runs on the caller's own object (no protective clone)", sv[0] if sv else fn, m, key="not-volatile")
+
+
+def rule_size_md5_identity_test(chk, rid):
+    repo = chk.repo
+    chk.rule(rid, "size and checksum are recorded whenever data is given (identity test `data is not None`, not truthiness: empty "
+                  "payloads are data too)")
+    mod = repo.module(STORE)
+    fn = repo.func(STORE, "Store.finalize_metadata")
+    cfg = CFG(fn)
+    n = 0
+    for s in body_walk(fn):
+        if isinstance(s, ast.Assign) and any(k in U(s.targets[0]) for k in ("['size']", "['md5']", '["size"]', '["md5"]')):
+            n += 1
+            lits = dominating_literals(cfg, cfg.node_of(s))
+            ok = any(txt == "data is None" and pol is False for _, txt, pol, _ in lits)
+            chk.ob(rid, f"{STORE}.Store.finalize_metadata", ok, f"`{U(s.targets[0])}` is set under `data is not None`" if ok else
+                   f"`{U(s.targets[0])}` is set under a truthiness test: an empty payload keeps the previous size/md5", s, mod, key=f"identity:{U(s.targets[0])[-8:]}")
+    chk.floor(rid, n, 2, "size/md5 assignments")
+
+
+def rule_remove_both_unconditional(chk, rid):
+    from .fsproto import write_effects, ctor_kind
+    repo = chk.repo
+    chk.rule(rid, "FileStore.remove unlinks the data file and the metadata file independently: neither unlink can be skipped because "
+                  "the other file is missing (each lies on every path from entry to exit)")
+    mod = repo.module(STORE)
+    fn = repo.func(STORE, "FileStore.remove")
+    cfg, effs = write_effects(fn)
+    un = [e for e in effs if e.kind == "unlink"]
+    for kind in ("data", "metadata"):
+        es = [e for e in un if ctor_kind(e.ctor) == kind]
+        ok = bool(es) and cfg.exit not in cfg.reachable(cfg.entry, avoid=[e.node for e in es])
+        chk.ob(rid, f"{STORE}.FileStore.remove", ok, f"the {kind} file is unlinked on every path" if ok else
+               f"the {kind} unlink is skipped on some path (e.g. when the other file is missing): a key with metadata only can never be removed", fn, mod, key=f"always:{kind}")
+
+
+def rule_predecessor_keeps_absolute(chk, rid):
+    repo = chk.repo
+    chk.rule(rid, "Query.predecessor keeps absoluteness: every Query it builds passes absolute=self.absolute (otherwise prefixes of an "
+                  "absolute query are filed and looked up under different texts)")
+    m = repo.module(PARSER)
+    fn = repo.func(PARSER, "Query.predecessor")
+    n = 0
+    for c in calls_in(fn):
+        if isinstance(c.func, ast.Name) and c.func.id == "Query":
+            n += 1
+            ok = U(kwarg(c, "absolute") or (c.args[1] if len(c.args) > 1 else None)) == "self.absolute"
+            chk.ob(rid, f"{PARSER}.Query.predecessor", ok, f"`{U(c)[:60]}` keeps absolute" if ok else f"`{U(c)[:60]}` drops the leading '/' of an absolute query", c, m, key=f"absolute:{n}")
+    chk.floor(rid, n, 2, "Query constructions in predecessor")
+
+
+def rule_json_type_registrations(chk, rid):
+    repo = chk.repo
+    chk.rule(rid, "the generic JSON state type is registered only for JSON scalars (None, int, float, bool): container types fall back to "
+                  "the pickle type because their members may be arbitrary objects")
+    m = repo.module(ST)
+    fn = repo.func(ST, "StateTypesRegistry.__init__")
+    ALLOWED = {"type(None)", "int", "float", "bool"}
+    n = 0
+    for c in calls_in(fn, tail="register"):
+        if len(c.args) == 2 and isinstance(c.args[1], ast.Call) and call_name(c.args[1]) == "JsonStateType":
+            n += 1
+            t = U(c.args[0])
+            chk.ob(rid, f"{ST}.StateTypesRegistry.__init__", t in ALLOWED, f"JsonStateType registered for `{t}`" + ("" if t in ALLOWED else
+                   ": values of this type with non-JSON members (tuples, bytes, objects) no longer round-trip"), c, m, key=f"json:{t}")
+    chk.floor(rid, n, 3, "JsonStateType registrations")
+    d = [s for s in body_walk(fn) if isinstance(s, ast.Assign) and U(s.targets[0]) == "self.default_state_type"]
+    chk.ob(rid, f"{ST}.StateTypesRegistry.__init__", len(d) == 1 and U(d[0].value) == "PickleStateType()", "unknown types default to the pickle type", fn, m, key="default-pickle")
+
+
+def rule_memory_marker_after_slot(chk, rid):
+    repo = chk.repo
+    chk.rule(rid, "MemoryCache.store publishes the data before it clears the metadata-only marker (clearing first opens a window in "
+                  "which the placeholder, already 'ready', is served)")
+    mod = repo.module(CACHE)
+    fn = repo.func(CACHE, "MemoryCache.store")
+    cfg = CFG(fn)
+    slot = [cfg.node_of(s) for s in body_walk(fn) if isinstance(s, ast.Assign) and any(isinstance(t, ast.Subscript) and U(t.value).startswith("self.") for t in s.targets)]
+    clr = [cfg.node_of(c) for c in calls_in(fn) if (call_recv(c) or "").startswith("self.") and call_tail(c) in ("discard", "remove") and call_recv(c) != "self.storage"]
+    if not clr:
+        chk.ob(rid, f"{CACHE}.MemoryCache.store", True, "no separate marker", fn, mod, key="marker-order", nontrivial=False)
+        return
+    ok = bool(slot) and all(cfg.set_dominates(slot, c) for c in clr)
+    chk.ob(rid, f"{CACHE}.MemoryCache.store", ok, "the slot is assigned before the marker is cleared" if ok else
+           "the metadata-only marker is cleared before the slot holds the data", fn, mod, key="marker-order")
+
+
+def rule_charset_agreement(chk, rid):
+    repo = chk.repo
+    chk.rule(rid, "writer/reader charset agreement: in every state type of state_types.py the charset constants used by as_bytes "
+                  "(.encode) and by from_bytes (.decode) are the same")
+    m = repo.module(ST)
+    n = 0
+    for ci in repo.classes_in(ST):
+        if not ci.is_subclass_of("StateType") or ci.name == "StateType":
+            continue
+        w, r = ci.methods.get("as_bytes"), ci.methods.get("from_bytes")
+        if w is None or r is None:
+            continue
+        enc = {c.args[0].value for c in calls_in(w, tail="encode") if c.args and isinstance(c.args[0], ast.Constant)}
+        dec = {c.args[0].value for c in calls_in(r, tail="decode") if c.args and isinstance(c.args[0], ast.Constant)}
+        if not enc and not dec:
+            continue
+        n += 1
+        chk.ob(rid, f"{ci.qual}", (not enc or not dec) or enc == dec, f"writer charset {sorted(enc)}, reader charset {sorted(dec)}" + ("" if enc == dec or not enc or not dec else
+               ": the reader transforms what the writer wrote (e.g. strips a leading BOM)"), r, m, key="charset")
+    chk.floor(rid, n, 3, "state types with text codecs")
+
+
+def rule_exception_siblings(chk, rid):
+    repo = chk.repo
+    chk.rule(rid, "KeyRouteNotFoundStoreException is not a KeyNotSupportedStoreException: `is_supported` swallows the latter, and a "
+                  "missing route must not be turned into 'not supported' (the outer store would fall through to its default store)")
+    mod = repo.module(STORE)
+    ci = repo.cls(STORE, "KeyRouteNotFoundStoreException")
+    names = [c.name for c in ci.mro()]
+    ok = "KeyNotSupportedStoreException" not in names and "StoreException" in names
+    chk.ob(rid, ci.qual, ok, f"bases: {names[1:]}", ci.node, mod, key="hierarchy")
+    nf = repo.cls(STORE, "KeyNotFoundStoreException")
+    chk.ob(rid, nf.qual, "KeyNotSupportedStoreException" not in [c.name for c in nf.mro()], "not-found is not not-supported", nf.node, mod, key="hierarchy")
+
+
+def rule_metadata_exception_flags(chk, rid):
+    repo = chk.repo
+    chk.rule(rid, "Metadata.exception / Metadata.error mark status AND flag: they go through the status setter (which raises is_error) "
+                  "or set both explicitly")
+    mm = repo.module("liquer.metadata")
+    ci = repo.cls("liquer.metadata", "Metadata")
+    setter = ci.methods.get("status.setter")
+    setter_ok = setter is not None and "self.metadata['is_error'] = True" in U(setter).replace('"', "'")
+    chk.ob(rid, "liquer.metadata.Metadata.status", setter_ok, "the status setter raises is_error for Status.ERROR", setter or ci.node, mm, key="setter")
+    for mn in ("exception", "error"):
+        fn = ci.methods.get(mn)
+        if fn is None:
+            continue
+        via_setter = any(isinstance(s, ast.Assign) and U(s.targets[0]) == "self.status" and "ERROR" in U(s.value) for s in body_walk(fn))
+        explicit = any(isinstance(s, ast.Assign) and "is_error" in U(s.targets[0]) and U(s.value) == "True" for s in body_walk(fn))
+        chk.ob(rid, f"liquer.metadata.Metadata.{mn}", (via_setter and setter_ok) or explicit, "marks status and flag" if (via_setter or explicit) else
+               "writes the status without raising the error flag (status 'error' with is_error False)", fn, mm, key=f"flags:{mn}")
+
+
+def rule_regex_action_agreement(chk, rid):
+    import re as _re2
+    repo = chk.repo
+    chk.rule(rid, "a token's grammar regex and the regex its parse action uses to split it agree: stripping the capture groups of the "
+                  "action's pattern gives a pattern that accepts everything the token regex accepts (sampled over the token alphabet)")
+    m = repo.module(PARSER)
+    from ..grammar import Grammar
+    g = Grammar(m)
+    n = 0
+    for rule, act in (("resource_identifier", "_resource_identifier_action"), ("segment_identifier", "_segment_identifier_action")):
+        fn = m.functions.get(act)
+        if fn is None or rule not in g.IR:
+            raise AnalysisError(f"{rule}/{act} not found")
+        pats = [c.args[0].value for c in calls_in(fn) if call_name(c) in ("re.match", "re.fullmatch") and c.args and isinstance(c.args[0], ast.Constant)]
+        toks = []
+        stack = [g.IR[rule]]
+        while stack:
+            x = stack.pop()
+            if x.kind == "re":
+                toks.append(x.kw["s"])
+            stack.extend(x.kids)
+        if not pats or not toks:
+            raise AnalysisError(f"{rule}/{act}: patterns not found")
+        samples = ["-", "--", "-a", "-aB1_", "--x", "-R", "-Rmeta", "-RData", "-R2020", "-R_x", "--Rab", "-Rx_1", "-q", "-Abc"]
+        bad = []
+        for tk in toks:
+            for smp in samples:
+                if _re2.fullmatch(tk, smp):
+                    mt = _re2.match(pats[0], smp)
+                    whole = mt is not None and mt.end() == len(smp)
+                    if not whole:
+                        bad.append(smp)
+        n += 1
+        chk.ob(rid, f"{PARSER}.{act}", not bad, f"action pattern {pats[0]!r} covers token pattern(s) {toks}" if not bad else
+               f"action pattern {pats[0]!r} does not consume {bad} which the token pattern accepts: the name is truncated / the segment becomes the unnamed one",
+               fn, m, key=f"agree:{rule}")
+    chk.floor(rid, n, 2, "token/action regex pairs")
